@@ -56,6 +56,13 @@ GRAD_TOL = 2e-6
 W_GEN = 'models.get_mev_generating_for_nested vs get_mev_for_nested'
 
 
+def safe_exp(x):
+    try:
+        return math.exp(x)
+    except OverflowError:
+        return math.inf
+
+
 def nontrivial(case):
     n = case.get('nests')
     if case.get('av') is not None and any((s['k'] == 'num' and s['v'] == 0) or (s['k'] == 'col' and 0 in s['vals']) for s in case['av']):
@@ -194,7 +201,12 @@ def rel_euler(ctx, res, rng):
         for i, a in enumerate(case['alts']):
             if av is not None and av[i] == 0:
                 continue
-            exp = math.exp(V[i] + lg['ok'][a][r]) / g['ok'][r]
+            gv = g['ok'][r]
+            if not (math.isfinite(gv) and gv > 0) or not math.isfinite(lg['ok'][a][r]):
+                res.violate(f'row {r}: the published generating function / ln G_{a} is not a positive finite number', {**case, 'alternative': a},
+                            {'G': gv, 'lnG': lg['ok'][a][r]}, 'G > 0, ln G_i finite', where=w)
+                return
+            exp = safe_exp(V[i] + lg['ok'][a][r]) / gv
             if not is_close(rp['ok'][a][r], exp, TOL):
                 res.violate(f'row {r}: nested probability of alternative {a} differs from y_i exp(ln G_i) / G', {**case, 'alternative': a},
                             rp['ok'][a][r], exp, where=w)
@@ -318,7 +330,7 @@ def check_generating(ctx, res, case, with_model=True):
                 continue  # G_i = 0 by convention for an unavailable alternative; ln G_i is not read
             y = math.exp(V[i])
             num = (gp['ok'][r] - gm['ok'][r]) / (2 * eps * y)
-            pub = math.exp(lg['ok'][a][r])
+            pub = safe_exp(lg['ok'][a][r])
             if not core.close(num, pub, rel=GRAD_TOL, abs_=GRAD_TOL):
                 res.violate(
                     f'row {r}: dG/dy_{a} of the published generating function (numerical: {num!r}) differs from exp(ln G_{a}) = {pub!r} '
@@ -353,7 +365,50 @@ def rel_generating(ctx, res, rng):
     check_generating(ctx, res, case)
 
 
-RELATIONS = [rel_mu_one, rel_cnl_degenerate, rel_cnl_single_nest, rel_scale_one, rel_tuple_syntax, rel_generating, rel_euler]
+
+def rel_named_nests(ctx, res, rng):
+    """nest objects that already carry names (re-used from an earlier specification, where the
+    constructor auto-named them, or named alike by the user): names are labels only.  Objects vs
+    legacy tuples, nested vs the cross-nested logit with alpha = 1, exp(ln G_i) = dG/dy_i, Euler."""
+    scaled = rng.random() < 0.3
+    fam = 'nestedmu' if scaled else 'nested'
+    case = None
+    for _ in range(20):
+        case = gen_case(rng, fam, k=rng.randint(3, 7))
+        if len(case['nests']['list']) >= 2:
+            break
+    n = case['nests']
+    n['syntax'] = rng.choice(['object', 'object_bare'])
+    n.pop('reuse', None)
+    for m in n['list']:
+        m.pop('name', None)
+        if m['mu']['v'] == 1.0:
+            m['mu']['v'] = dyadic(rng, 1.125, 5)
+    how = rng.choice(['reuse', 'reuse', 'same_name', 'auto_name_clash'])
+    if how == 'reuse':
+        n['reuse'] = True
+    elif how == 'same_name':
+        for m in n['list']:
+            m['name'] = 'N'
+    else:
+        n['list'][-1]['name'] = 'nest_1'
+    res.count({'rel': 'named_nests', 'case': case}, nontrivial=True)
+    res.tally(f'named / re-used nest objects ({how})')
+    w = 'nest objects carrying names (re-used or named alike) vs the same nests as legacy tuples'
+    plain = copy.deepcopy(case)
+    plain['nests']['syntax'] = 'tuple'
+    plain['nests'].pop('reuse', None)
+    for m in plain['nests']['list']:
+        m.pop('name', None)
+    if compare_pair(res, f'{fam}: named / re-used nest objects vs legacy tuples', case, plain, w) is None:
+        return
+    cnl = to_degenerate_cnl(rng, case, 'cnlmu' if scaled else 'cnl')
+    cnl['nests'].pop('reuse', None)
+    compare_pair(res, f'{fam} with named / re-used nest objects vs cross-nested logit with alpha = 1', cnl, case, w, log_too=False)
+    model_pair(ctx, res, 'named nests', case, plain, w)
+    if not scaled:
+        check_generating(ctx, res, case)
+
 
 # F07 (fixed in the repository): an alone alternative in the generating function
 CORPUS_GEN = [
@@ -365,7 +420,15 @@ CORPUS_GEN = [
      'av': [{'k': 'col', 'vals': [1, 0]}, {'k': 'num', 'v': 1}, {'k': 'num', 'v': 1}, {'k': 'col', 'vals': [0, 1]}],
      'nests': {'syntax': 'tuple', 'choice_set': [4, 9, 2, 31], 'list': [{'mu': {'v': 1.5, 'form': 'beta_free', 'name': 'ma'}, 'alts': [9, 4]},
                                                                       {'mu': {'v': 3.0, 'form': 'num', 'name': 'mb'}, 'alts': [31]}]}},
+    # seeded agent_C06_1: a nest object auto-named nest_1 by an earlier specification, re-used as second nest
+    {'family': 'nested', 'alts': [1, 2, 3, 4, 5], 'rows': 2, 'cols': {'X0': [0.5, -1.0], 'X1': [1.0, 0.25], 'X2': [-0.5, 0.75]},
+     'util': [{'k': 'var', 'col': 'X0'}, {'k': 'var', 'col': 'X1'}, {'k': 'num', 'c': 0.25}, {'k': 'var', 'col': 'X2'}, {'k': 'num', 'c': -0.5}],
+     'av': [{'k': 'num', 'v': 1}, {'k': 'col', 'vals': [1, 0]}, {'k': 'num', 'v': 1}, {'k': 'num', 'v': 1}, {'k': 'col', 'vals': [0, 1]}],
+     'nests': {'syntax': 'object', 'choice_set': [1, 2, 3, 4, 5], 'reuse': True,
+               'list': [{'mu': {'v': 1.625, 'form': 'num', 'name': 'ma'}, 'alts': [1, 2]}, {'mu': {'v': 2.75, 'form': 'num', 'name': 'mb'}, 'alts': [4, 5]}]}},
 ]
+
+RELATIONS = [rel_mu_one, rel_cnl_degenerate, rel_cnl_single_nest, rel_scale_one, rel_tuple_syntax, rel_generating, rel_euler, rel_named_nests]
 
 
 def check(ctx) -> Result:
@@ -375,7 +438,7 @@ def check(ctx) -> Result:
         for c in CORPUS_GEN:
             check_generating(ctx, res, c)
             res.tally('corpus')
-        n = ctx.n(32, 600)
+        n = ctx.n(24, 520)
         for _ in range(n):
             for rel in RELATIONS:
                 rel(ctx, res, rng)
